@@ -100,25 +100,17 @@ fn run_c13(args: Args) {
         let nt = reg.len() as u64;
         // one "round" = every registry type once
         let rounds = args.cases(240, 1600);
-        // sanitizer lanes: BLS- and PoS-bearing types first
-        let san = matches!(args.lane.as_str(), "asan" | "valgrind");
-        let order: Vec<usize> = {
-            let mut o: Vec<usize> = (0..reg.len()).collect();
-            if san {
-                o.sort_by_key(|i| u32::from(reg[*i].flags() & (F_BLS | F_POS) == 0));
-            }
-            o
-        };
+        let order = lane_order(&reg, &args.lane);
         let n = rounds * nt;
         run_cases(&args, "c13", n, &mut rep, |i, rng, rep| {
-            let round = i / nt;
-            let e = &reg[order[((i + round) % nt) as usize]];
+            let (ti, phase) = plan(i, &order);
+            let e = &reg[ti];
             let heavy = e.flags() & F_HEAVY != 0;
             let pos = e.flags() & F_POS != 0 && ffi_ok;
-            let kind = match round % 8 {
+            let kind = match phase % 8 {
                 0 | 4 if !heavy => c13::Kind::Perturb,
-                0 if round % 32 == 0 => c13::Kind::Perturb,
-                2 if pos && round % 16 == 2 => c13::Kind::V2VectorPerturb,
+                0 if phase % 32 == 0 => c13::Kind::Perturb,
+                2 if pos && phase % 16 == 2 => c13::Kind::V2VectorPerturb,
                 2 | 6 if pos => c13::Kind::V2Vector,
                 _ => c13::Kind::Value,
             };
@@ -142,18 +134,40 @@ fn shard_cases(args: &Args, n: u64) -> Vec<u64> {
     }
 }
 
-fn c14_order(reg: &Registry, lane: &str) -> Vec<usize> {
-    let mut o: Vec<usize> = (0..reg.len()).collect();
-    if matches!(lane, "asan" | "valgrind") {
-        o.sort_by_key(|i| u32::from(reg[*i].flags() & (F_BLS | F_POS) == 0));
+/// Order in which the registry types take the cases of a round. Sanitizer lanes
+/// run a small fraction of the workload: BLS- and PoS-bearing types (the ones that
+/// reach C/C++ through FFI) are listed three times so they get 3/4 of it.
+fn lane_order(reg: &Registry, lane: &str) -> Vec<usize> {
+    let all: Vec<usize> = (0..reg.len()).collect();
+    if !matches!(lane, "asan" | "valgrind") {
+        return all;
+    }
+    let ffi: Vec<usize> = all.iter().copied().filter(|i| reg[*i].flags() & (F_BLS | F_POS) != 0).collect();
+    let rest: Vec<usize> = all.iter().copied().filter(|i| reg[*i].flags() & (F_BLS | F_POS) == 0).collect();
+    let mut o = vec![];
+    // interleave so that a short run still sees both groups
+    let n = ffi.len().max(rest.len());
+    for k in 0..n {
+        for rep in 0..3 {
+            if !ffi.is_empty() {
+                o.push(ffi[(k * 3 + rep) % ffi.len()]);
+            }
+        }
+        if !rest.is_empty() {
+            o.push(rest[k % rest.len()]);
+        }
     }
     o
 }
 
-/// (index into the registry, case kind) of case `i`
-fn c14_plan(i: u64, nt: u64, order: &[usize]) -> (usize, u32) {
+/// (index into the registry, phase) of case `i`. A type meets every phase as the
+/// rounds go by, and one round already mixes all phases over the types, so even a
+/// one-round run (Miri) sees every case kind.
+fn plan(i: u64, order: &[usize]) -> (usize, u64) {
+    let nt = order.len() as u64;
     let round = i / nt;
-    (order[((i + round) % nt) as usize], (round % c14::KINDS.len() as u64) as u32)
+    let slot = (i + round) % nt;
+    (order[slot as usize], round + slot)
 }
 
 // ---------------------------------------------------------------------------
@@ -176,7 +190,7 @@ fn worker_loop(args: &Args, status: c14::Status, ckpt: Option<&str>) -> Report {
     let mut rep = Report::new(&args.prop, &args.lane);
     let reg = lane_registry(&args.lane);
     let nt = reg.len() as u64;
-    let order = c14_order(&reg, &args.lane);
+    let order = lane_order(&reg, &args.lane);
     let cases = shard_cases(args, c14_case_count(args, nt));
     let start: u64 = args.get("wstart").and_then(|s| s.parse().ok()).unwrap_or(0);
     let skip = parse_skip(args.get("wskip"));
@@ -190,6 +204,11 @@ fn worker_loop(args: &Args, status: c14::Status, ckpt: Option<&str>) -> Report {
         selftest_abort_case: args.get("selftest-abort-case").and_then(|s| s.parse().ok()),
         case: 0,
         c: args.get("c").and_then(|s| s.parse().ok()).unwrap_or(c14::C_BYTES_PER_INPUT_BYTE),
+        light: match args.lane.as_str() {
+            "miri" => 2,
+            "valgrind" => 1,
+            _ => 0,
+        },
     };
     install_panic_hook();
     let mut last_ckpt = Instant::now();
@@ -205,7 +224,8 @@ fn worker_loop(args: &Args, status: c14::Status, ckpt: Option<&str>) -> Report {
             }
         }
         rep.case = i;
-        let (ti, kind) = c14_plan(i, nt, &order);
+        let (ti, phase) = plan(i, &order);
+        let kind = (phase % c14::KINDS.len() as u64) as u32;
         cx.type_idx = ti as u32;
         cx.step = 0;
         cx.case = i;
@@ -570,6 +590,7 @@ fn run_single(args: &Args) {
         selftest_abort_case: None,
         case: 0,
         c: c14::C_BYTES_PER_INPUT_BYTE,
+        light: 0,
     };
     let outcome = reg[ti].c14_single(&input, &mut rep, &mut cx);
     let j = rep.to_json();
